@@ -75,7 +75,9 @@ ASSUMPTIONS = [
     "64-bit integer and float16 inputs are compared by value; the documented storage type is the 32-bit TypeCode "
     "(TypeCode.from_dtype: 'int64 is not supported by format'); IntegerPacking is documented to return int32",
     "a rejection is ValueError, OverflowError or IndexError raised by encode()/compress()/serialize() (or the "
-    "SerializationError wrapper of the containers); an exception in decode() of biotite's own output is never a rejection",
+    "SerializationError wrapper of the containers); an exception in decode() of biotite's own output is never a rejection; "
+    "KeyError from TypeCode.from_dtype is caught as well so that it is judged by 'representable_accepted' "
+    "(it only occurs for the quarantined big-endian 64-bit/float16 class)",
     "IntervalQuantization: only values inside [min,max] are judged (error <= one step); finite values outside are "
     "clamped by the BinaryCIF definition of the encoding and only counted; num_steps >= 2",
     "ByteArrayEncoding(type=float32) on float64 data: rounding to float32 and underflow are accepted (counted); only "
